@@ -136,7 +136,7 @@ class Counter:
                 rets[bb] |= set(ncnts)
                 continue
             succs = f.succs(bb)
-            if t[0] == 'switch' and t[1][0] in ('c', 'm') and isinstance(t[1][1], int) and t[1][1] in val:
+            if t[0] == 'switch' and t[1][0] in ('c', 'm') and isinstance(t[1][1], int) and t[1][1] in val and val[t[1][1]][0] != 'a':
                 v = val[t[1][1]][1]
                 tgt = t[3]
                 for av, ab in t[2]:
